@@ -42,6 +42,9 @@ type Engine struct {
 	restObjs  map[string]*Obj
 	entries   map[string]*EntryInfo
 	ghostSorts map[string]string
+	refPayload map[*Term]IfaceV
+	symByRef   map[*Term]*SymIface
+	refFactsBy map[string][]*Term
 	extraTerms []*Term
 	obls      []*Obligation
 	assumpLog map[string]bool
@@ -58,7 +61,7 @@ type Engine struct {
 }
 
 func newEngine() *Engine {
-	return &Engine{
+	e := &Engine{
 		ssaPkgs:   map[string]*ssa.Package{},
 		contracts: map[string]*Contract{},
 		specFuns:  map[string]*SpecFun{},
@@ -75,11 +78,16 @@ func newEngine() *Engine {
 		restObjs:  map[string]*Obj{},
 		entries:   map[string]*EntryInfo{},
 		ghostSorts: map[string]string{},
+		refPayload: map[*Term]IfaceV{},
+		symByRef:   map[*Term]*SymIface{},
+		refFactsBy: map[string][]*Term{},
 		assumpLog: map[string]bool{},
 		ordCache:  map[*ssa.Function]map[ssa.Instruction]int{},
 		loopCache: map[*ssa.Function]*loopInfo{},
 		constCache: map[string]int64{},
 	}
+	theEngine = e
+	return e
 }
 
 func (e *Engine) load(dir string, overlay map[string][]byte) error {
@@ -332,9 +340,11 @@ func (e *Engine) freshSlice(st *State, elem types.Type, hint string) SliceV {
 
 func (e *Engine) freshIface(st *State, t types.Type, hint string) IfaceV {
 	e.nVar++
+	ref := e.freshVar(hint+"_ref", SRef)
 	s := &SymIface{ID: e.nVar, Name: hint, T: t,
-		Nil: e.freshVar(hint+"_nil", SBool), Tag: e.freshVar(hint+"_tag", SInt), Ref: e.freshVar(hint+"_ref", SRef),
+		Nil: App("tq_isnil", SBool, ref), Tag: App("tq_tag", SInt, ref), Ref: ref,
 		Cases: map[string]Value{}}
+	e.symByRef[ref] = s
 	return IfaceV{Sym: s}
 }
 
